@@ -2,6 +2,7 @@ import SoundeventModel.Ops.Common
 import SoundeventModel.Aoef.Fields
 import SoundeventModel.Aoef.Valid
 import SoundeventModel.Aoef.File
+import SoundeventModel.Aoef.FileSys
 namespace SE.Ops.C01
 open Lean SE SE.Aoef SE.Paths
 
@@ -69,6 +70,25 @@ def optDir (a : Json) (k : String) : Except String (Option PPath) :=
 
 def getCollection (a : Json) : Except String Collection := do fromJson? (← fld a "collection")
 
+/-- a command of a file-system history -/
+def getCmd (st : Json) : Except String FS.Cmd := do
+  let p ← fldStr st "path"
+  match ← fldStr st "cmd" with
+  | "save" => return .save p (← getCollection st) (← optDir st "save_dir")
+  | "load" => return .load p (← optDir st "load_dir")
+  | "rm" => return .rm p
+  | "put" =>
+    match fldOpt st "doc" with
+    | some dj => let d : Doc ← fromJson? dj; return .put p (.doc d)
+    | none => return .put p (.junk "")
+  | c => .error s!"C01: unknown command {c}"
+
+def outJ : FS.Out → Json
+  | .done => Json.mkObj [("ok", Json.bool true)]
+  | .failed e => raiseJ e
+  | .loaded r => exceptJ toJson r
+  | .notFound => Json.mkObj [("raise", Json.str FileErr.notFound.name)]
+
 def handle (op : String) (a : Json) : Except String Json := do
   match op with
   | "fields" => return fieldTable
@@ -113,6 +133,10 @@ def handle (op : String) (a : Json) : Except String Json := do
       let n ← fldNat st "n"
       pure (exceptJ toJson (cycles (← optDir st "save_dir") (← optDir st "load_dir") n c))
     return arrJ outs
+  | "fs_history" =>
+    -- a history of saves / loads / foreign writes / removals against the file-system model, from the empty file system
+    let cmds ← (← fldArr a "steps").mapM getCmd
+    return arrJ ((History.runS FS.exec FS.empty cmds).map outJ)
   | "echo" =>
     -- parse a collection and write it back (validates the harness' encoding of objects)
     let c ← getCollection a
